@@ -347,6 +347,8 @@ def run(ctx):
     for cls in (opt, arg):
         m = cls.methods.get("parse")
         ctx.require(m is not None, "%s.parse missing" % cls.name)
+        # a table-driven dispatch (`for flag, parser in ((BOOLEAN, parse_boolean), ...)`) is read as the if-chain it stands for
+        m = q.unroll_const_loops(m)
         cfg = ctx.cfg(m)
         table = {}
         for ret in q.returns(m):
@@ -440,16 +442,26 @@ def run(ctx):
     r = ctx.rule("C07-R7", "TABLE", "the boolean literal sets contain the text forms of True and False", reference=2)
     pb = ctx.func("clikit.utils.string.parse_boolean")
     cfg = ctx.cfg(pb)
+    prm_b = pb.params[0]
     for lit, val in (("true", True), ("false", False)):
         ok = False
         for ret in q.returns(pb):
+            rn = cfg.node_of(ret)
             if isinstance(ret.value, ast.Constant) and ret.value.value is val:
-                rn = cfg.node_of(ret)
+                # membership in a literal set that holds the text form leads to this return and to nothing else
+                others = [x.id for x in cfg.nodes if x.kind in ("return", "raise") and x.id != rn.id] + [cfg.exit.id]
                 for e in cfg.nodes:
-                    if e.kind == "T" and cfg.dominates(e.id, rn.id) and isinstance(e.ast, ast.Compare) and isinstance(e.ast.ops[0], ast.In):
+                    if e.kind == "T" and isinstance(e.ast, ast.Compare) and len(e.ast.ops) == 1 and isinstance(e.ast.ops[0], ast.In) and rn.id in cfg.reach([e.id]) \
+                            and cfg.all_paths_hit(e.id, {rn.id}, others):
                         st = e.ast.comparators[0]
                         if isinstance(st, (ast.Set, ast.List, ast.Tuple)) and any(isinstance(x, ast.Constant) and x.value == lit for x in st.elts):
                             ok = True
+            else:
+                # table form: `return TABLE[value]` under `value in TABLE`, TABLE a module-level dict of literals
+                tb = _literal_table(pb, ret.value, prm_b)
+                if tb is not None and tb.get(lit, None) is val and guarded_by(cfg, rn, lambda e: isinstance(e, ast.Compare) and len(e.ops) == 1 and isinstance(e.ops[0], ast.In)
+                                                                              and norm(e.comparators[0]) == norm(ret.value.value), polarity=True) is not None:
+                    ok = True
         if ok:
             r.ok("parse_boolean: '%s' -> %s" % (lit, val))
         else:
@@ -547,6 +559,10 @@ def run(ctx):
             if isinstance(v, ast.Call) and isinstance(v.func, ast.Name) and (v.func.id == tname or bound.get(v.func.id) == tname):
                 r.ok("%s: %s" % (where, norm(ret)))
                 continue
+            tb_ = _literal_table(fn, v, prm0)
+            if tb_ is not None and tb_ and all(type(x).__name__ == tname for x in tb_.values()):
+                r.ok("%s: %s - every entry of the table is a %s" % (where, norm(ret), tname))
+                continue
             if isinstance(v, ast.Call) and isinstance(v.func, ast.Name) and v.func.id in smod_.functions and v.func.id != fn.name and depth < 3:
                 # delegation to a helper of the module: its returns are judged with the parameters bound as at this call
                 h = smod_.functions[v.func.id]
@@ -599,6 +615,22 @@ def run(ctx):
     if n12 == 0:
         r.vacuous_ok = True
     return ctx.results
+
+
+def _literal_table(fn, v, prm):
+    """{key: value} when ``v`` is ``TABLE[<prm>]`` with TABLE a module-level dict literal of constants (bound once), else None"""
+    if not (isinstance(v, ast.Subscript) and isinstance(v.value, ast.Name) and isinstance(v.slice, ast.Name) and v.slice.id == prm):
+        return None
+    d = fn.module.assigns.get(v.value.id)
+    if not isinstance(d, ast.Dict) or not all(isinstance(k, ast.Constant) and isinstance(x, ast.Constant) for k, x in zip(d.keys, d.values)):
+        return None
+    # the table must not be rebound / updated anywhere in its module
+    for n in ast.walk(fn.module.tree):
+        if isinstance(n, (ast.Subscript, ast.Attribute)) and isinstance(n.value, ast.Name) and n.value.id == v.value.id and isinstance(n.ctx, (ast.Store, ast.Del)):
+            return None
+        if isinstance(n, ast.Call) and isinstance(n.func, ast.Attribute) and isinstance(n.func.value, ast.Name) and n.func.value.id == v.value.id and n.func.attr in ("update", "pop", "clear", "setdefault", "popitem"):
+            return None
+    return {k.value: x.value for k, x in zip(d.keys, d.values)}
 
 
 def _is_nullable_def(m, name):
